@@ -156,6 +156,7 @@ INJECT = [
     ("native/file_writer.rs", "src/disk_store/file_writer.rs", "verif_nat_file_writer", ("native",)),
     ("native/api_roundtrip.rs", "src/lib.rs", "verif_nat_api_roundtrip", ("native",)),
     ("native/column.rs", "src/mem_store/column.rs", "verif_nat_column", ("native",)),
+    ("native/stringpack.rs", "src/stringpack.rs", "verif_nat_stringpack", ("native",)),
 ]
 
 
